@@ -1036,18 +1036,29 @@ func (*writerIndex).Keys
     flags locks lockonly noframe
     requires[locks] held(&ix.mu) == 0
 func (*reader).closeIndex
-    flags locks lockonly noframe
+    flags locks lockonly
     requires[locks] held(&r.indexMu) == 0
+    assigns reader.index
 func (*reader).GC
     flags locks lockonly noframe
     requires[locks] rdLocksFree()
 func (*reader).Close
-    flags locks lockonly noframe
+    flags locks lockonly
     requires[locks] rdLocksFree()
+    assigns reader.index, reader.messages
 func (*reader).Delete
-    flags locks only_locks only_sync only_order only_crash noframe
+    flags locks only_locks only_sync only_order only_crash only_struct
     requires[sync_src] rs != nil && !fsDirty[rs.Log] && !fsDirty[rs.Index]
-    assigns all
+    requires[struct_ok] r != nil && rs != nil && !r.head && r.segment.Offset >= 0
+                        && (forall o int64 :: has(rs.SurviveOffsets, o) ==> o >= r.segment.Offset)
+    assigns fPath, fsDirty, fsExists, fsContent, dirDirty, reader.index, reader.messages
+    // C01/C12 structure: the replacement is an ordinary reader named after the lowest surviving offset;
+    // no replacement exactly when nothing survived
+    ensures[struct_reader] ret1 == nil && ret0 != nil ==> (ret0 == r || fresh(ret0)) && !ret0.head
+                            && has(rs.SurviveOffsets, ret0.segment.Offset)
+                            && (forall o int64 :: has(rs.SurviveOffsets, o) ==> ret0.segment.Offset <= o)
+    ensures[struct_gone]   ret1 == nil ==> (ret0 == nil <==> len(rs.SurviveOffsets) == 0)
+    ensures[struct_frame]  r.segment == old(r.segment) && r.head == old(r.head)
     // C05: the original is removed only after its replacement is in place (rebase branch)
     assert[order_replace_first] distinct4(rs.Log, rs.Index, nseg.Log, nseg.Index) ==> fsExists[nseg.Log] && fsExists[nseg.Index] at call (Segment).Remove 3
     // C05 crash invariant noDup: no two segment files with overlapping offsets at any step. Fails on the
@@ -1087,8 +1098,9 @@ func (*writer).Publish
       invariant[struct_same]  w.index != nil && w.index.items == old(w.index.items) && w.index.nextOffset == old(w.index.nextOffset) && nextOffset == old(w.index.nextOffset)
       invariant[struct_done]  forall j :: 0 <= j && j <= rangeindex ==> msgs[j].Offset == nextOffset + j && items[j].Offset == nextOffset + j && items[j].Position >= 0
 func (*writer).Close
-    flags locks lockonly noframe
+    flags locks lockonly
     requires[locks] rdLocksFree()
+    assigns reader.index, reader.messages
 func (*writer).ReopenReader
     flags locks only_locks only_struct noframe
     requires[locks] ixLocksFree()
@@ -1097,10 +1109,21 @@ func (*writer).ReopenReader
     ensures[struct_reader] ret0 != nil && fresh(ret0) && !ret0.head && ret0.segment == w.segment
     ensures[struct_next]   ret1 == w.index.nextOffset && ret2 == w.index.nextTime
 func (*writer).Delete
-    flags locks only_locks only_sync only_order only_crash noframe
+    flags locks only_locks only_sync only_order only_crash only_struct
     requires[sync_src] rs != nil && !fsDirty[rs.Log] && !fsDirty[rs.Index]
     requires[sync_ok] wOK(w)
-    assigns all
+    requires[struct_ok] wrS(w) && rs != nil && len(rs.DeletedMessages) > 0
+                        && (forall o int64 :: has(rs.SurviveOffsets, o) ==> w.segment.Offset <= o && o < w.index.nextOffset)
+    assigns fPath, fsDirty, fsExists, fsContent, dirDirty, reader.index, reader.messages
+    // C01/C12 structure: a new head writer; when the tail was deleted the surviving part becomes an
+    // ordinary (non-head) reader below it
+    ensures[struct_writer]  ret2 == nil ==> ret0 != nil && fresh(ret0) && wrS(ret0) && fresh(ret0.reader)
+                            && ret0.segment.Offset >= old(w.segment.Offset)
+    ensures[struct_reader]  ret2 == nil && ret1 != nil ==> fresh(ret1) && !ret1.head
+                            && ret1.segment.Offset >= old(w.segment.Offset) && ret1.segment.Offset < ret0.segment.Offset
+    // C02: whenever the newest message is deleted the new empty head is named after NextOffset, so the
+    // offset is not handed out again (also after a reopen)
+    ensures[struct_newhead] ret2 == nil && (ret1 != nil || len(rs.SurviveOffsets) == 0) ==> ret0.segment.Offset == old(w.index.nextOffset)
     assert[order_replace_first] distinct4(rs.Log, rs.Index, nseg.Log, nseg.Index) ==> fsExists[nseg.Log] && fsExists[nseg.Index] at call (Segment).Remove 4
     // C05/C02: when everything was deleted, the new empty head named after NextOffset exists before the
     // old head is removed (otherwise a crash in between lets NextOffset move backwards)
@@ -1137,15 +1160,38 @@ func (*log).ConsumeByKey
       invariant[wf]    logWf(l) && 0 <= segmentIndex && segmentIndex < len(l.readers) && rdr == l.readers[segmentIndex]
       invariant[locks] held(&l.readersMu) == 1 && rdLocksFree() && ixLocksFree()
 func (*log).Delete
-    flags locks lockonly noframe
+    flags locks only_locks only_struct noframe
     requires[locks] nolocks()
-func (*log).delete
-    flags locks only_locks only_sync noframe
-    requires[sync_ok] wOK(l.writer)
+    requires[struct_ok] structWf(l)
     assigns all
+    // C19: a read-only handle rejects Delete; C12: the empty set is a no-op
+    ensures[struct_readonly] old(l.opts.Readonly) ==> ret2 == ErrReadonly && ret0 == nil && ret1 == 0
+    ensures[struct_empty]    !old(l.opts.Readonly) && old(len(offsets)) == 0 ==> ret2 == nil && ret0 == nil && ret1 == 0
+    ensures[struct_wf]       structWf(l)
+func (*log).delete
+    flags locks only_locks only_sync only_struct noframe
+    requires[sync_ok] wOK(l.writer)
+    requires[struct_ok] structWf(l) && !l.opts.Readonly
+    assigns all
+    ensures[struct_wf] structWf(l) && !l.opts.Readonly
+    // ASSUMED (content part of INV, not proved here): the offsets stored in a segment file lie between
+    // its base and the next segment's base (NextOffset for the head)
+    assume[struct_range_head] (forall o int64 :: has(rs.SurviveOffsets, o) ==> l.writer.segment.Offset <= o && o < l.writer.index.nextOffset) at call (*writer).Delete 1
+    assume[struct_range_reader] (forall o int64 :: has(rs.SurviveOffsets, o) ==> rdr.segment.Offset <= o
+                                   && (forall j :: 0 <= j && j < len(l.readers) && l.readers[j].segment.Offset > rdr.segment.Offset ==> o < l.readers[j].segment.Offset)) at call (*reader).Delete 1
     requires[locks] held(&l.deleteMu) == 2 && held(&l.writerMu) == 0 && held(&l.readersMu) == 0 && rdLocksFree() && ixLocksFree()
     loop 1
       invariant[locks] held(&l.readersMu) == 2 && held(&l.deleteMu) == 2 && held(&l.writerMu) == 0
+      invariant[struct_idx]    -1 <= rangeindex && rangeindex < len(l.readers) && l.readers == old(l.readers) && l.writer == old(l.writer) && !l.opts.Readonly
+      invariant[struct_old]    structWf(l)
+      invariant[struct_sep]    newReaders == nil || region(newReaders) != region(l.readers)
+      invariant[struct_elem]   forall k :: 0 <= k && k < len(newReaders) ==> newReaders[k] != nil && newReaders[k].segment.Offset >= 0
+                                   && (newReaders[k].head ==> newReaders[k] == l.readers[len(l.readers)-1])
+      invariant[struct_sorted] forall a, b :: 0 <= a && a < b && b < len(newReaders) ==> newReaders[a] != newReaders[b] && newReaders[a].segment.Offset < newReaders[b].segment.Offset
+      invariant[struct_below]  forall k, j :: 0 <= k && k < len(newReaders) && rangeindex < j && j < len(l.readers) ==> newReaders[k].segment.Offset < l.readers[j].segment.Offset && newReaders[k] != l.readers[j]
+      invariant[struct_last]   rangeindex == len(l.readers) - 1 ==> len(newReaders) >= 1 && newReaders[len(newReaders)-1] == l.readers[len(l.readers)-1]
+      invariant[struct_new]    newReader != nil ==> !newReader.head && newReader.segment.Offset >= rdr.segment.Offset && newReader != l.readers[len(l.readers)-1]
+                                   && (forall j :: 0 <= j && j < len(l.readers) && l.readers[j].segment.Offset > rdr.segment.Offset ==> newReader.segment.Offset < l.readers[j].segment.Offset)
 func (*log).Stat
     flags locks lockonly noframe
     requires[locks] nolocks()
